@@ -74,6 +74,9 @@ type wsConn struct {
 	// outgoing messages
 	writeLk sync.Mutex
 
+	// connGen counts how often conn has been replaced (atomic; changed under writeLk)
+	connGen uint64
+
 	// reconnLk makes "the reconnect goroutine starts a dial" and "the connection
 	// loop has ended" mutually exclusive
 	reconnLk sync.Mutex
@@ -150,8 +153,22 @@ func (c *wsConn) nextMessage() {
 // nextWriter waits for writeLk and invokes the cb callback with WS message
 // writer when the lock is acquired
 func (c *wsConn) nextWriter(cb func(io.Writer)) {
+	c.nextWriterOn(anyConnGen, cb)
+}
+
+// anyConnGen: the message may go out on whatever the current connection is
+const anyConnGen = ^uint64(0)
+
+// nextWriterOn is nextWriter for a message that must go out on the connection
+// of generation gen (connGen counts the reconnects). If the connection has been
+// replaced in the meantime the message is dropped and cb is not invoked.
+func (c *wsConn) nextWriterOn(gen uint64, cb func(io.Writer)) {
 	c.writeLk.Lock()
 	defer c.writeLk.Unlock()
+	if gen != anyConnGen && atomic.LoadUint64(&c.connGen) != gen {
+		log.Debugw("dropping a message for a connection that has been replaced")
+		return
+	}
 	vhook(c, "ws.writer.locked", "response")
 
 	wcl, err := c.conn.NextWriter(websocket.TextMessage)
@@ -538,7 +555,13 @@ func (c *wsConn) handleCall(ctx context.Context, frame frame) {
 		}
 	}
 	if frame.ID != nil {
-		nextWriter = c.nextWriter
+		// the response belongs on the connection the request came in on: after a
+		// reconnect the peer has forgotten this request and numbers its requests
+		// afresh, so a late answer would be taken for the answer to another one
+		gen := atomic.LoadUint64(&c.connGen)
+		nextWriter = func(cb func(io.Writer)) {
+			c.nextWriterOn(gen, cb)
+		}
 
 		c.handlingLk.Lock()
 		c.handling[frame.ID] = cancel
@@ -738,6 +761,7 @@ func (c *wsConn) tryReconnect(ctx context.Context) bool {
 		c.writeLk.Lock()
 		vhook(c, "ws.writer.locked", "swap")
 		c.conn = conn
+		atomic.AddUint64(&c.connGen, 1)
 		c.errLk.Lock()
 		c.incomingErr = nil
 		c.errLk.Unlock()
